@@ -74,13 +74,16 @@ EXOTIC_CHARS = set(gtext.EXOTIC)
 # --------------------------------------------------------------------------
 # planning
 
-def plan_graphs(rng, spec, exotic):
+def plan_graphs(rng, spec, exotic, many=False):
     big = rng.sub('big').chance(0.04)
     n = rng.weighted([(0, 1), (1, 4), (2, 4), (3, 2), (4, 1)]) if not big else 5 + rng.randrange(8)
+    if many:
+        # a long stream of tiny graphs (thresholds in the number of graphs, lines or bytes)
+        big, n = False, rng.sub('many').pick([150, 400, 1000])
     graphs = []
     for i in range(n):
         r = rng.sub('g', i)
-        ccfg = gcontent.ContentCfg(max_nodes=r.pick([1, 2, 3, 5]) if not big else r.pick([3, 6, 10, 14]), exotic=exotic * 0.5,
+        ccfg = gcontent.ContentCfg(max_nodes=(1 if many else r.pick([1, 2, 3, 5])) if not big else r.pick([3, 6, 10, 14]), exotic=exotic * 0.5,
                                    p_none_target=0.03, p_inverted_attr=0.03)
         c = gcontent.gen_content(r, spec, ccfg)
         lcfg = gcontent.LayoutCfg(p_align=r.pick([0.0, 0.0, 0.3]))
@@ -114,7 +117,7 @@ def plan(rng, idx, tier):
     mode = rng.weighted([('benign', 6), ('read_fault', 2), ('write_fault', 2), ('interleave', 1), ('stream_copy', 2)])
     if tier == 'thorough' and idx % 10 == 0:
         mode = 'enumerate_faults'
-    graphs = plan_graphs(rng.sub('graphs'), spec, exotic)
+    graphs = plan_graphs(rng.sub('graphs'), spec, exotic, many=(idx % 800 == 400))
     srng = rng.sub('style')
     style = {'nl': srng.chance(0.6), 'indent': srng.pick([0, 1, 3, 4]),
              'sep': srng.weighted([('blank', 4), ('newline', 3), ('space', 2), ('blank3', 1), ('tab', 1)]),
